@@ -799,6 +799,8 @@ impl<'a> Parser<'a> {
         }
         let if_true: Expr;
         let mut if_false: Expr = Expr::Empty;
+        // `(?(1)|)` has (empty) branches, unlike `(?(1))`
+        let has_else = matches!(child, Expr::Alt(_));
         if let Expr::Alt(mut alternatives) = child {
             // the truth branch will be the first alternative
             if_true = alternatives.remove(0);
@@ -822,7 +824,7 @@ impl<'a> Parser<'a> {
         let after = self.check_for_close_paren(end)?;
         Ok((
             after,
-            if if_true == Expr::Empty && if_false == Expr::Empty {
+            if !has_else && if_true == Expr::Empty {
                 inner_condition
             } else {
                 Expr::Conditional {
